@@ -75,6 +75,7 @@ FreeCalls ==
     \cup {Call("text", s, 0, r, X) : s \in Elems, r \in Nodes \cup {0}}
     \cup {Call("reparent", s, c, 0, <<>>) : s \in Elems, c \in Elems}
     \cup {Call("clone", s, cl.next, 0, <<>>) : s \in {s \in Elems : Room(1)}}
+    \cup {SetAttrCall(s, PlainA(N_id, X)) : s \in {s \in Elems : E.nd[s].a = <<>>}}          \* shows attribute dicts shared between clones
 FreeOK(c) ==
     CASE c.op \in {"append", "before"} -> c.s # c.c /\ NoCycle(c.s, c.c) /\ (c.op = "before" => c.r # c.c)
       [] c.op = "remove"   -> c.s # c.c
